@@ -467,7 +467,7 @@ def exampleName : Obj := .path (.inst "CIM_Foo".toList none none [.mk (some "Nam
 
 example : WireOk toyCodec toySpec 0 exampleName := by
   refine ⟨?_, by decide, by decide, by decide⟩
-  simp [exampleName, Sendable, SendablePath, SendableKeys, SendableKey, AtomOk, NoDupKeyNames, Key.name]
+  simp [exampleName, Sendable, SendablePath, SendableKeys, SendableKey, AtomOk, NoDupKeyNames, Key.name, NsOk]
 
 example : IsParamObj exampleName := trivial
 
@@ -488,6 +488,7 @@ example : WireOk toyCodec toySpec 0 exampleEmptyString ∧ IsParamObj exampleEmp
   refine ⟨⟨?_, by decide, ?_, ?_⟩, trivial, ?_⟩
   · simp [exampleEmptyString, Sendable, SendableInst, SendableInstBody, SendablePropList, SendableProp, SendablePropVal,
       SendableQuals, PlainAtom, AtomOk, typeName, NoDupNames, Prop_.name]
+    decide
   · rw [C04_example_empty_string_encoding]; decide
   · rw [C04_example_empty_string_encoding]; decide
   · rw [C04_example_empty_string_encoding]; decide
@@ -496,7 +497,7 @@ example : ∃ t, wireTree (encObj toyCodec.toCodec exampleName) = some t ∧
     decode toyCodec 0 t = .ok (wdObj toyCodec.toCodec exampleName) :=
   (C04_objrt_from_C01 toyCodec toySpec toyCodecOk 0).roundtrip exampleName (by
     refine ⟨?_, by decide, by decide, by decide⟩
-    simp [exampleName, Sendable, SendablePath, SendableKeys, SendableKey, AtomOk, NoDupKeyNames, Key.name])
+    simp [exampleName, Sendable, SendablePath, SendableKeys, SendableKey, AtomOk, NoDupKeyNames, Key.name, NsOk])
 
 /-! ### the tree-level wire is the parser applied to the bytes (XmlSyntax discharged) -/
 
